@@ -1237,7 +1237,7 @@ def run(tier, seed, replay=None):
             distinct.add(res["doc"])
 
     def case_payload(case, extra):
-        d = {"case": {"ts": [list(map(list, (s, o))) and [list(s), p, list(o)] for s, p, o in case["ts"]],
+        d = {"case": {"ts": [[list(s), p, list(o)] for s, p, o in case["ts"]],
                       "cfg": case["cfg"], "stream": case["stream"], "seed": case["seed"], "i": case["i"]},
              "document": pipe.nt_doc(case["ts"])}
         d.update(extra)
